@@ -22,6 +22,20 @@ package main
 //     role (a loop, slices.IndexFunc/ContainsFunc, or a helper that does so)
 //     with a return in between (member recheck = true of Spine.Feat);
 //   - NextFeatureId: every call it makes happens under a mutex of the entity.
+//   - wiring of the use-case operations (added in the deepening round): which
+//     helper of model.NodeManagementUseCaseDataType each operation applies to
+//     the copied data, and that it does so after the copy, before the store and
+//     inside the same lock hold. Function literals are followed: a literal
+//     passed to a helper (or kept in a local variable) is interpreted where the
+//     helper calls its parameter, so `r.update(func(data, addr) { data.X(…) })`
+//     and the four written-out cycles yield the same trace. The helper names
+//     are those of the methods declared on NodeManagementUseCaseDataType in the
+//     model package (exported API), read from the model sources;
+//   - HasUseCaseSupport copies, asks the model helper of that name and stores
+//     nothing;
+//   - every search of the feature list by type and role that GetOrAddFeature
+//     performs (first lookup and re-check alike) happens under a mutex of the
+//     entity: the model's `lookup` is one event.
 //
 // A fact that cannot be established is false and a note says why.
 
@@ -46,10 +60,35 @@ type elEvent struct {
 }
 
 type elInterp struct {
-	funcs map[string]*ast.FuncDecl // "Recv.Name" or ".Name"
-	trace []elEvent
-	held  map[string]int
-	epoch map[string]int
+	funcs   map[string]*ast.FuncDecl // "Recv.Name" or ".Name"
+	trace   []elEvent
+	held    map[string]int
+	epoch   map[string]int
+	env     map[string]*elClosure // function literals bound to names visible in the current frame
+	modelUC map[string]bool       // methods of model.NodeManagementUseCaseDataType
+}
+
+// a function literal together with the frame it was written in
+type elClosure struct {
+	lit *ast.FuncLit
+	fd  *ast.FuncDecl
+	env map[string]*elClosure
+}
+
+func elParamNames(fd *ast.FuncDecl) []string {
+	var out []string
+	if fd.Type.Params == nil {
+		return out
+	}
+	for _, f := range fd.Type.Params.List {
+		if len(f.Names) == 0 {
+			out = append(out, "_")
+		}
+		for _, n := range f.Names {
+			out = append(out, n.Name)
+		}
+	}
+	return out
 }
 
 func elRecvType(fd *ast.FuncDecl) string {
@@ -218,6 +257,13 @@ func (in *elInterp) walkStmt(st ast.Stmt, fd *ast.FuncDecl, depth int, defers *[
 			in.walkExpr(r, fd, depth)
 		}
 		for i, l := range x.Lhs {
+			if id, ok := l.(*ast.Ident); ok && i < len(x.Rhs) && in.env != nil {
+				if fl, ok := x.Rhs[i].(*ast.FuncLit); ok {
+					in.env[id.Name] = &elClosure{lit: fl, fd: fd, env: in.env}
+				}
+			}
+		}
+		for i, l := range x.Lhs {
 			if s, ok := l.(*ast.SelectorExpr); ok && s.Sel.Name == "features" && i < len(x.Rhs) {
 				if c, ok := x.Rhs[i].(*ast.CallExpr); ok && exprString(c.Fun) == "append" {
 					in.emit("append", exprString(l), depth)
@@ -328,6 +374,35 @@ func (in *elInterp) call(c *ast.CallExpr, fd *ast.FuncDecl, depth int) {
 			return
 		}
 	}
+	if id, ok := c.Fun.(*ast.Ident); ok {
+		if cl := in.env[id.Name]; cl != nil && depth < 4 {
+			// a call of a bound function literal: interpret its body here, in the frame it was written in
+			in.emit("call", name, depth)
+			saved := in.env
+			in.env = cl.env
+			var defers []string
+			in.walkBlock(cl.lit.Body.List, cl.fd, depth+1, &defers)
+			for i := len(defers) - 1; i >= 0; i-- {
+				in.unlock(defers[i], depth+1)
+			}
+			in.env = saved
+			return
+		}
+	}
+	if isSel && in.modelUC[sel.Sel.Name] {
+		onRecv := false
+		if x, ok := sel.X.(*ast.Ident); ok && x.Name == elRecvName(fd) && x.Name != "" {
+			for _, t := range []string{elRecvType(fd), "Entity", "Feature", "Device"} {
+				if in.funcs[t+"."+sel.Sel.Name] != nil {
+					onRecv = true
+				}
+			}
+		}
+		if !onRecv {
+			in.emit("modify", sel.Sel.Name, depth)
+			return
+		}
+	}
 	switch {
 	case name == "NewFeatureLocal":
 		in.emit("create", name, depth)
@@ -369,12 +444,32 @@ func (in *elInterp) call(c *ast.CallExpr, fd *ast.FuncDecl, depth int) {
 		}
 	}
 	if callee != nil && callee != fd {
+		newEnv := map[string]*elClosure{}
+		params := elParamNames(callee)
+		for i, a := range c.Args {
+			if i >= len(params) {
+				break
+			}
+			switch x := a.(type) {
+			case *ast.FuncLit:
+				newEnv[params[i]] = &elClosure{lit: x, fd: fd, env: in.env}
+			case *ast.Ident:
+				if cl := in.env[x.Name]; cl != nil {
+					newEnv[params[i]] = cl
+				}
+			}
+		}
+		saved := in.env
+		in.env = newEnv
 		in.walkFunc(callee, depth+1)
+		in.env = saved
 	}
 }
 
+var elModelUC map[string]bool
+
 func elTrace(funcs map[string]*ast.FuncDecl, key string) []elEvent {
-	in := &elInterp{funcs: funcs, held: map[string]int{}, epoch: map[string]int{}}
+	in := &elInterp{funcs: funcs, held: map[string]int{}, epoch: map[string]int{}, env: map[string]*elClosure{}, modelUC: elModelUC}
 	in.walkFunc(funcs[key], 0)
 	return in.trace
 }
@@ -424,10 +519,40 @@ func genEntityLocal(outDir string) (string, error) {
 	}
 	var notes []string
 
+	// the helpers of the use-case data type, from the model package's sources
+	elModelUC = map[string]bool{}
+	{
+		mdir := filepath.Join(RepoDir(), "model")
+		ments, err := os.ReadDir(mdir)
+		if err != nil {
+			return "", err
+		}
+		for _, e := range ments {
+			n := e.Name()
+			if e.IsDir() || !strings.HasSuffix(n, ".go") || strings.HasSuffix(n, "_test.go") || !strings.Contains(n, "nodemanagement") {
+				continue
+			}
+			f, err := parser.ParseFile(fset, filepath.Join(mdir, n), nil, 0)
+			if err != nil {
+				return "", err
+			}
+			for _, d := range f.Decls {
+				if x, ok := d.(*ast.FuncDecl); ok && elRecvType(x) == "NodeManagementUseCaseDataType" {
+					elModelUC[x.Name.Name] = true
+				}
+			}
+		}
+		if len(elModelUC) == 0 {
+			notes = append(notes, "no method of model.NodeManagementUseCaseDataType found in model/*nodemanagement*.go")
+		}
+	}
+
 	// ---- the four read-modify-write operations
 	ucOps := []string{"AddUseCaseSupport", "SetUseCaseAvailability", "RemoveUseCaseSupport", "RemoveAllUseCaseSupports"}
 	locked := map[string]bool{}
 	lockOf := map[string]string{}
+	helperOf := map[string]string{}
+	helperCode := map[string]int{"AddUseCaseSupport": 1, "SetAvailability": 2, "RemoveUseCaseSupport": 3, "RemoveUseCaseDataForAddress": 4}
 	for _, name := range ucOps {
 		tr := elTrace(funcs, "EntityLocal."+name)
 		var cs []elEvent
@@ -473,6 +598,64 @@ func genEntityLocal(outDir string) (string, error) {
 			}
 		}
 		locked[name] = ok
+		// wiring: the one helper of the use-case data type applied after the copy, before the store, in that lock hold
+		helper := ""
+		if ok {
+			m := lockOf[name]
+			ep := cs[0].held[m]
+			firstCopy, lastStore := -1, -1
+			for i, e := range tr {
+				if e.kind == "copy" && firstCopy < 0 {
+					firstCopy = i
+				}
+				if e.kind == "store" {
+					lastStore = i
+				}
+			}
+			names := map[string]bool{}
+			inside := true
+			for i, e := range tr {
+				if e.kind != "modify" {
+					continue
+				}
+				names[e.detail] = true
+				if e.held[m] != ep || i < firstCopy || i > lastStore {
+					inside = false
+				}
+			}
+			switch {
+			case len(names) == 0:
+				notes = append(notes, name+": no helper of the use-case data type is applied")
+			case len(names) > 1:
+				notes = append(notes, fmt.Sprintf("%s: several helpers of the use-case data type are applied: %v", name, sortedKeys(names)))
+			case !inside:
+				notes = append(notes, name+": the helper is applied outside the copy..store span of the lock hold")
+			default:
+				helper = sortedKeys(names)[0]
+			}
+		}
+		helperOf[name] = helper
+	}
+	// HasUseCaseSupport: a copy, the helper of that name, no store
+	hasReadOnly := false
+	{
+		tr := elTrace(funcs, "EntityLocal.HasUseCaseSupport")
+		nCopy, nStore := 0, 0
+		names := map[string]bool{}
+		for _, e := range tr {
+			switch e.kind {
+			case "copy":
+				nCopy++
+			case "store":
+				nStore++
+			case "modify":
+				names[e.detail] = true
+			}
+		}
+		hasReadOnly = nCopy > 0 && nStore == 0 && len(names) == 1 && names["HasUseCaseSupport"]
+		if !hasReadOnly {
+			notes = append(notes, fmt.Sprintf("HasUseCaseSupport: copies %d, stores %d, helpers %v", nCopy, nStore, sortedKeys(names)))
+		}
 	}
 	pkgLevel := true
 	for _, name := range ucOps {
@@ -485,9 +668,31 @@ func genEntityLocal(outDir string) (string, error) {
 	}
 
 	// ---- GetOrAddFeature
-	creationLocked, rechecks := false, false
+	creationLocked, rechecks, searchesLocked := false, false, false
 	{
 		tr := elTrace(funcs, "EntityLocal.GetOrAddFeature")
+		nSearch := 0
+		searchesLocked = true
+		for _, e := range tr {
+			if e.kind == "search" {
+				nSearch++
+				n := 0
+				for m := range e.held {
+					if !pkgMutex[m] {
+						n++
+					}
+				}
+				if n == 0 {
+					searchesLocked = false
+				}
+			}
+		}
+		if nSearch == 0 {
+			searchesLocked = false
+		}
+		if !searchesLocked {
+			notes = append(notes, fmt.Sprintf("GetOrAddFeature: of its %d searches of the feature list by type and role not all happen under a mutex of the entity", nSearch))
+		}
 		createAt, appendAt := -1, -1
 		for i, e := range tr {
 			if e.kind == "create" && createAt < 0 {
@@ -558,6 +763,11 @@ func genEntityLocal(outDir string) (string, error) {
 	for _, name := range ucOps {
 		fmt.Fprintf(&b, "/-- %s: every DataCopy and SetData it performs (directly or through helpers) lies inside one critical section of a package-level mutex -/\ndef locked%s : Bool := %v\n\n", name, name, locked[name])
 	}
+	for _, name := range ucOps {
+		fmt.Fprintf(&b, "/-- %s: the helper of model.NodeManagementUseCaseDataType it applies to the copy, after the copy and before the store inside the lock hold (1 AddUseCaseSupport, 2 SetAvailability, 3 RemoveUseCaseSupport, 4 RemoveUseCaseDataForAddress; 0 = none, several, another one, or outside) — found: %q -/\ndef helper%s : Nat := %d\n\n", name, helperOf[name], name, helperCode[helperOf[name]])
+	}
+	fmt.Fprintf(&b, "/-- HasUseCaseSupport: copies the data, asks the helper HasUseCaseSupport of the data type, stores nothing -/\ndef hasUseCaseSupportReadOnly : Bool := %v\n\n", hasReadOnly)
+	fmt.Fprintf(&b, "/-- GetOrAddFeature: every search of the feature list by type and role it performs (first lookup and re-check) happens under a mutex of the entity -/\ndef getOrAddSearchesLocked : Bool := %v\n\n", searchesLocked)
 	fmt.Fprintf(&b, "/-- GetOrAddFeature: NewFeatureLocal and the append to the feature list lie inside one critical section of a mutex of the entity -/\ndef getOrAddCreationLocked : Bool := %v\n\n", creationLocked)
 	fmt.Fprintf(&b, "/-- GetOrAddFeature: in that critical section, before the creation, the feature list is searched by type and role and a match is returned -/\ndef getOrAddRechecks : Bool := %v\n\n", rechecks)
 	fmt.Fprintf(&b, "/-- Entity.NextFeatureId: everything it calls happens under a mutex of the entity -/\ndef nextFeatureIdLocked : Bool := %v\n\n", nextLocked)
@@ -568,6 +778,17 @@ func genEntityLocal(outDir string) (string, error) {
 	if err := writeFile(outDir, "EntityLocal.lean", b.String()); err != nil {
 		return "", err
 	}
-	return fmt.Sprintf("useCaseMuxPackageLevel=%v locked=%v/%v/%v/%v creationLocked=%v rechecks=%v nextFeatureIdLocked=%v",
-		pkgLevel, locked[ucOps[0]], locked[ucOps[1]], locked[ucOps[2]], locked[ucOps[3]], creationLocked, rechecks, nextLocked), nil
+	return fmt.Sprintf("useCaseMuxPackageLevel=%v locked=%v/%v/%v/%v helpers=%d/%d/%d/%d hasReadOnly=%v creationLocked=%v rechecks=%v searchesLocked=%v nextFeatureIdLocked=%v",
+		pkgLevel, locked[ucOps[0]], locked[ucOps[1]], locked[ucOps[2]], locked[ucOps[3]],
+		helperCode[helperOf[ucOps[0]]], helperCode[helperOf[ucOps[1]]], helperCode[helperOf[ucOps[2]]], helperCode[helperOf[ucOps[3]]], hasReadOnly,
+		creationLocked, rechecks, searchesLocked, nextLocked), nil
+}
+
+func sortedKeys(m map[string]bool) []string {
+	var out []string
+	for k := range m {
+		out = append(out, k)
+	}
+	sort.Strings(out)
+	return out
 }
